@@ -1,5 +1,6 @@
 import NbioVerif.Properties.C01
 import NbioVerif.Properties.ConnTimer
+import NbioVerif.Properties.ConnClose
 #print axioms ConnFull.inv_run
 #print axioms ConnFull.c01_integrity
 #print axioms ConnFull.c01_drained
@@ -23,3 +24,13 @@ import NbioVerif.Properties.ConnTimer
 #print axioms ConnFull.timer_fire_needs_expiry
 #print axioms ConnFull.timer_expire_needs_timer
 #print axioms ConnFull.timer_survives_error_close
+-- supporting lemmas: the two steps of a close (Properties/ConnClose.lean; step names shared with the C03 model)
+#print axioms ConnFull.inv_run3
+#print axioms ConnFull.close_frozen
+#print axioms ConnFull.closed_indication
+#print axioms ConnFull.teardown_effect
+#print axioms ConnFull.teardown_idle
+#print axioms ConnFull.close_bookkeeping
+#print axioms ConnFull.close_pending_or_done
+#print axioms ConnFull.no_wire_after_flip
+#print axioms ConnFull.closeNow_eq_flip_teardown
